@@ -101,7 +101,8 @@ def finding_matches(kf, prop, ob, fail):
     same property (or a different clause of the same function) still fires."""
     if prop not in kf.get("properties", [kf.get("property")]):
         return False
-    if kf["obligation"] != ob:
+    # the same repository item may be verified in several units (included contracts): match on the item
+    if kf["obligation"] != ob and not ob.endswith(":" + kf.get("item", "\0")):
         return False
     needle = kf.get("clause_contains", "")
     return needle in (fail.get("source", "") + " " + fail.get("msg", ""))
@@ -134,7 +135,10 @@ def main():
     try:
         units = vx.load_units()
         uprops = unit_props(units)
-        sel_units = [n for n, u in units.items() if prop in uprops[n] and u.get("tier", "quick") in TIERS[tier]]
+        # a unit serves the properties listed for it in units.json; within the unit the obligations of a
+        # property are the items annotated with it
+        sel_units = [n for n, u in units.items() if prop in u.get("props", []) and prop in uprops[n]
+                     and u.get("tier", "quick") in TIERS[tier]]
         # ---- Verus units, in parallel
         results = {}
         with cf.ThreadPoolExecutor(max_workers=a.jobs) as ex:
@@ -270,10 +274,14 @@ def main():
         print(ln)
 
     wall = time.time() - t0
-    n_ob = len(obligations)
-    n_ok = sum(1 for o in obligations if o["ok"])
-    proved = [o for o in obligations if o["kind"] == "proved"]
-    bounded = [o for o in obligations if o["kind"] == "bounded"]
+    # an obligation whose only failing clauses are listed known findings is reported separately:
+    # it is neither counted as discharged nor as one of the obligations this run had to discharge
+    known_ids = {o["id"] for o, _, _ in known_hits} - {o["id"] for o, _ in violations}
+    counted = [o for o in obligations if o["id"] not in known_ids]
+    n_ob = len(counted)
+    n_ok = sum(1 for o in counted if o["ok"])
+    proved = [o for o in counted if o["kind"] == "proved"]
+    bounded = [o for o in counted if o["kind"] == "bounded"]
     level = conf.get("level", "proof")
     ev = {
         "property_id": prop, "tier": tier, "seed": seed, "level": level,
@@ -295,6 +303,7 @@ def main():
                          "repo_lines": o.get("repo_lines"), "sha256": o.get("sha256")} for o in obligations[:12]],
             "fidelity": fidelity,
             "known_findings_hit": [kf["what"] for _, _, kf in known_hits],
+            "obligations_with_known_finding": sorted(known_ids),
             "inconclusive": inconclusive,
             "explanation": conf.get("explanation", ""),
             "not_covered": conf.get("not_covered", []),
